@@ -1378,7 +1378,13 @@ struct array : static_array<T, D, Alloc> {
 	}
 
 	auto operator=(array const& other) -> array& {
-		if(array::extensions() == other.extensions()) {
+		// with propagate_on_container_copy_assignment the allocator is replaced: storage of an unequal allocator cannot be
+		// kept (it would later be returned through the new allocator), so it is released and reacquired as for other extents
+		bool keeps_allocator = true;
+		if constexpr(multi::allocator_traits<typename array::allocator_type>::propagate_on_container_copy_assignment::value) {
+			keeps_allocator = (this->alloc() == other.alloc());
+		}
+		if(keeps_allocator && array::extensions() == other.extensions()) {
 			if(this == &other) {
 				return *this;
 			}  // required by cert-oop54-cpp
